@@ -97,6 +97,9 @@ class Platform:
         local_paths = []
         if not is_system_include:
             local_paths += [this_path]
+        elif os.path.isabs(filename):
+            # An absolute name needs no search directory at all.
+            local_paths += [os.path.dirname(filename)]
 
         # Determine the path to the include file, if it exists
         for path in local_paths + self._include_paths:
